@@ -631,6 +631,8 @@ def _create_odesys(
         raise ValueError("parameter_symbols needs to be an OrderedDict")
 
     symbols = OrderedDict(chain(substance_symbols.items(), parameter_symbols.items()))
+    if "time" in symbols:
+        raise ValueError("Key 'time' is reserved.")
     symbols["time"] = time_symbol or backend.Symbol("t")
     if any(symbols["time"] == v for k, v in symbols.items() if k != "time"):
         raise ValueError("time_symbol already in use (name clash?)")
